@@ -8,9 +8,11 @@ import (
 	"net/http/httptest"
 	"os"
 	"os/exec"
+	"os/signal"
 	"path/filepath"
 	"strings"
 	"sync"
+	"syscall"
 	"testing"
 	"time"
 
@@ -34,6 +36,8 @@ type ByteCase struct {
 	// round-trip campaign only: the first attempt to put the value meets an unavailable state directory
 	// (the put must fail), the client repeats the identical put once the directory is back
 	Outage bool `json:"outage,omitempty"`
+	// the failure is a write that stops after 100 bytes (file size limit) instead of a missing directory
+	ShortWrite bool `json:"short_write,omitempty"`
 }
 
 func (c ByteCase) value() []byte {
@@ -44,7 +48,8 @@ func (c ByteCase) value() []byte {
 }
 
 var wsRunes = []rune{' ', '\t', '\n', '\v', '\f', '\r', 0x85, 0xA0, 0x1680, 0x2000, 0x2003, 0x200A, 0x2028, 0x2029, 0x202F, 0x205F, 0x3000}
-var nearWS = []rune{0x200B, 0xFEFF, 0x180E, 0x1C, 0x1F, 0x2060, 0x00} // look like space, are not White_Space
+var nearWS = []rune{0x200B, 0xFEFF, 0x180E, 0x1C, 0x1F, 0x2060, 0x00, // look like space, are not White_Space
+	'à', 'Å', 'Ġ', 'ą'} // letters whose UTF-8 encoding ends in 0xA0 / 0x85 - bytes that would be White_Space as code points of their own
 
 var roundTripClasses = []string{"empty", "ascii", "ws-text", "ws-text", "ws-only", "near-ws", "invalid-utf8", "invalid-utf8", "invalid-utf8-ws", "nul", "binary", "binary", "big"}
 var cliClasses = []string{"empty", "empty", "ascii", "ws-text", "ws-text", "ws-text", "ws-text", "ws-only", "ws-only", "near-ws", "invalid-utf8", "invalid-utf8-ws", "invalid-utf8-ws", "nul", "binary", "big"}
@@ -104,6 +109,8 @@ func allAccess(ctx context.Context, addr string) (*apitype.WhoIsResponse, error)
 	return dbx.WhoIsOf(dbx.Super()), nil
 }
 
+func init() { signal.Ignore(syscall.SIGXFSZ) } // a write beyond RLIMIT_FSIZE must fail with EFBIG, not kill the test binary
+
 func runC18(t *testing.T, c ByteCase) (*h.Violation, h.Info) {
 	var info h.Info
 	val := c.value()
@@ -142,19 +149,40 @@ func runC18(t *testing.T, c ByteCase) (*h.Violation, h.Info) {
 		return h.V("harness", "NewStore: %v", err), info
 	}
 	defer st.Close()
+	// a caller keeps the bytes it got from the handle (the documentation lets it): they are its to keep
+	held := st.Secret("s").Get()
+	heldCopy := append([]byte{}, held...)
 	if c.Outage {
-		away := dir + ".away"
-		if err := os.Rename(dir, away); err != nil {
-			return h.V("harness", "rename: %v", err), info
-		}
-		_, perr := cl.Put(ctx, "s", append([]byte{}, val...))
-		if err := os.Rename(away, dir); err != nil {
-			return h.V("harness", "rename back: %v", err), info
+		var perr error
+		if c.ShortWrite {
+			var old syscall.Rlimit
+			syscall.Getrlimit(syscall.RLIMIT_FSIZE, &old)
+			syscall.Setrlimit(syscall.RLIMIT_FSIZE, &syscall.Rlimit{Cur: 100, Max: old.Max})
+			_, perr = cl.Put(ctx, "s", append([]byte{}, val...))
+			syscall.Setrlimit(syscall.RLIMIT_FSIZE, &old)
+			info.Class("first-put-hit-a-short-write")
+		} else {
+			away := dir + ".away"
+			if err := os.Rename(dir, away); err != nil {
+				return h.V("harness", "rename: %v", err), info
+			}
+			_, perr = cl.Put(ctx, "s", append([]byte{}, val...))
+			if err := os.Rename(away, dir); err != nil {
+				return h.V("harness", "rename back: %v", err), info
+			}
 		}
 		if perr == nil {
-			return h.V("bytes-round-trip-unchanged", "Put reported success while the state directory was unavailable: the value cannot be on disk"), info
+			return h.V("bytes-round-trip-unchanged", "Put reported success while the database could not be written: the value cannot be on disk"), info
 		}
 		info.Class("first-put-failed-then-repeated")
+		// a server restarted at THIS moment still has everything that was acknowledged before
+		raw, rerr := os.ReadFile(path)
+		if rerr != nil {
+			return h.V("bytes-round-trip-unchanged", "after a put that failed (%v) the database file is gone: %v - a restart now would lose every acknowledged value", perr, rerr), info
+		}
+		if kv, derr := model.DecodeDBFile(raw, dbx.DummyKey()); derr != nil || kv["s"] == nil || !strings.HasPrefix(kv["s"].Vers[1], "an earlier version") {
+			return h.V("bytes-round-trip-unchanged", "after a put that failed (%v) the database file no longer holds the earlier, acknowledged version of the secret (%v)", perr, derr), info
+		}
 	}
 	ver, err := cl.Put(ctx, "s", append([]byte{}, val...))
 	if err != nil {
@@ -238,6 +266,9 @@ func runC18(t *testing.T, c ByteCase) (*h.Violation, h.Info) {
 	if len(val) < 300 {
 		info.Class("cache-rewritten-with-a-shorter-document")
 	}
+	if !bytes.Equal(held, heldCopy) {
+		return h.V("bytes-round-trip-unchanged", "bytes returned by the Store's handle before the rotation (%.40q...) read %.40q... after the poll that installed the new version: the store modified bytes it had handed out", heldCopy, held), info
+	}
 	if v := same("Store handle after a poll", st.Secret("s").Get(), nil); v != nil {
 		st.Close()
 		return v, info
@@ -306,6 +337,7 @@ var c18 = &h.Campaign[ByteCase]{
 	Gen: func(rt *rapid.T) ByteCase {
 		c := genBytes(rt)
 		c.Outage = rapid.IntRange(0, 3).Draw(rt, "outage") == 0
+		c.ShortWrite = c.Outage && rapid.Bool().Draw(rt, "shortwrite")
 		return c
 	},
 	Run: runC18,
@@ -457,13 +489,13 @@ var c18cli = &h.Campaign[CLICase]{
 // The full cross product of put flags and input sources over representative inputs.
 func TestC18CLIMatrix(t *testing.T) {
 	h.FirstShardOnly(t)
-	rec := h.NewRec("C18", "cli-matrix", "every combination of --verbatim x --trim-space x --empty-ok x {--from-file, pipe} (16) over 14 representative inputs (empty, plain, ASCII and Unicode surrounding whitespace, whitespace only, invalid UTF-8 with and without surrounding whitespace, NUL, look-alike non-whitespace, 70 KB text with trailing newline, 70 KB binary, 3 MiB+17 binary): complete enumeration; non-trivial as in the cli sub-campaign; distinct by (flags, source, input)")
+	rec := h.NewRec("C18", "cli-matrix", "every combination of --verbatim x --trim-space x --empty-ok x {--from-file, pipe} (16) over 16 representative inputs (empty, plain, ASCII and Unicode surrounding whitespace, whitespace only, invalid UTF-8 with and without surrounding whitespace, NUL, look-alike non-whitespace, 70 KB text with trailing newline, 70 KB binary, 3 MiB+17 binary): complete enumeration; non-trivial as in the cli sub-campaign; distinct by (flags, source, input)")
 	defer rec.Flush()
 	big := bytes.Repeat([]byte("0123456789abcdef"), 4400)
 	inputs := []ByteCase{
 		{Class: "empty", Val: []byte{}}, {Class: "ascii", Val: []byte("abc")}, {Class: "ws-text", Val: []byte(" abc\n")}, {Class: "ws-text", Val: []byte("\u3000x y\u2028")},
 		{Class: "ws-only", Val: []byte(" \n\t")}, {Class: "invalid-utf8", Val: []byte("\xffabc")}, {Class: "invalid-utf8-ws", Val: []byte(" \n\xffabc\n")},
-		{Class: "nul", Val: []byte("a\x00b\x00")}, {Class: "nul", Val: []byte(" a\x00b\n")}, {Class: "near-ws", Val: []byte("\u200bx\ufeff")}, {Class: "ws-text", Val: []byte("-----BEGIN KEY-----\nabc\n-----END KEY-----\n")},
+		{Class: "nul", Val: []byte("a\x00b\x00")}, {Class: "nul", Val: []byte(" a\x00b\n")}, {Class: "near-ws", Val: []byte("\u200bx\ufeff")}, {Class: "near-ws", Val: []byte("voilà")}, {Class: "near-ws", Val: []byte("Åre città")}, {Class: "ws-text", Val: []byte("-----BEGIN KEY-----\nabc\n-----END KEY-----\n")},
 		{Class: "big", Val: append(append([]byte{}, big...), '\n')}, {Class: "big", Val: append([]byte{0xff, 0x00}, big...)},
 		{Class: "big", Val: append([]byte{0xfe}, bytes.Repeat([]byte("0123456789abcdef"), 3*65536+1)...)}, // 3 MiB + 17 bytes
 	}
